@@ -75,6 +75,10 @@ EXPLANATION += (
     ' Round 8: the Ensembl pattern has a literal dot as version separator and is matched against the whole identifier (R-IDIOM/ensembl-pattern, regex AST).'
 )
 
+EXPLANATION += (
+    ' Round 10: piecewise copies are not filtered by the content just read (R-COVER/copy-not-filtered-by-content).'
+)
+
 RULE_TEXT = (
     "one obligation per effect root, per mutating helper call, per "
     "rejection point, per log conditional, per layer argument, per uns "
